@@ -307,7 +307,11 @@ class ModelCacheMixin:
     def batch_eval(self, asts, n, extra_constraints=(), exact=None):
         results = self._get_batch_solutions(asts, n=n, extra_constraints=extra_constraints)
 
-        if len(results) == n or (len(asts) == 1 and asts[0].hash() in self._eval_exhausted):
+        # eval-exhaustion only says that every value of the expression under the constraints themselves is cached;
+        # with extra constraints the cached models may miss feasible values
+        if len(results) == n or (
+            len(extra_constraints) == 0 and len(asts) == 1 and asts[0].hash() in self._eval_exhausted
+        ):
             return results
 
         remaining = n - len(results)
